@@ -15,7 +15,7 @@ from .common import short
 
 CMD = 'exabgp.reactor.api.command.'
 PROCESSES = 'exabgp.reactor.api.processes.Processes'
-ANSWERS = ('Processes.answer_done', 'Processes.answer_error', 'Processes.answer_done_sync', 'Processes.answer_error_sync', 'Processes.answer', 'Processes._answer_sync', 'Processes._answer')  # _answer*: raw done markers; answer(): the JSON result of the v6 routes/group commands is their terminal reply
+ANSWERS = ('Processes.answer_done', 'Processes.answer_error', 'Processes.answer_done_sync', 'Processes.answer_error_sync', 'Processes._answer_sync', 'Processes._answer')  # _answer*: raw done markers.  Processes.answer() writes a JSON result: it is data, not the terminal done / error the property asks for
 
 # handlers whose purpose contradicts "exactly one terminal answer", one line of reason each
 R1_EXEMPT = {
@@ -267,6 +267,25 @@ def check(model: Model, run: Run) -> None:
     run.rule('C14.R6', 'line reassembly and order: both readers keep the unterminated tail unconditionally after the split loop, cap the buffer, split on newline; commands enter the deque with append and leave with popleft', floor=5)
     _r6_lines(model, run)
     _r6_one_per_turn(model, run)
+
+    # ------------------------------------------------------------------ R8
+    run.rule(
+        'C14.R8',
+        'a command that is answered with error has changed no RIB: inside one command callback no explicit error answer is '
+        'reachable once a route has been installed or withdrawn (Configuration.announce_route / withdraw_route ...), the arms that '
+        'handle an exception aside - every route of the line is validated before the first one is installed',
+        floor=10,
+    )
+    _r8_validate_first(model, run, cnt)
+
+    # ------------------------------------------------------------------ R9
+    run.rule(
+        'C14.R9',
+        'a command word that is not understood is an error, not a default: no handler derives the action it takes from the words of '
+        'the command with a fall-back value (`x = "in" if "in" in words else "out"`) - `rib clear bogus` must not run as `rib clear out`',
+        floor=30,
+    )
+    _r9_no_default_action(model, run, cnt)
 
     # ------------------------------------------------------------------ R7
     run.rule(
@@ -666,3 +685,109 @@ def _feasible_escape(cfg: CFG, src: int, targets: set[int]) -> tuple[bool, list[
                     continue
             stack.append((j, nf, path + (j,)))
     return True, best
+
+
+# ---------------------------------------------------------------------------------------------- R8
+MUTATORS = ('_Configuration.announce_route', '_Configuration.withdraw_route', '_Configuration.inject_operational', '_Configuration.inject_eor', '_Configuration.inject_refresh', '_Configuration.announce_route_indexed', '_Configuration.withdraw_route_by_index')
+
+
+def _r8_validate_first(model: Model, run: Run, cnt: Counter) -> None:
+    n = 0
+    for qn, fi in sorted(cnt.handlers.items()):
+        for sub in [fi] + [s_ for s_ in model.funcs.values() if s_.parent is fi]:
+            muts = model.calls_to(sub.module, sub.node, *MUTATORS)
+            if not muts:
+                continue
+            run.analysed(sub)
+            cfg = CFG(sub.node)
+            pm = parent_map(sub.node)
+            errs = []
+            for c in model.calls_to(sub.module, sub.node, 'Processes.answer_error', 'Processes.answer_error_sync'):
+                # not the arms that report an exception
+                cur: ast.AST | None = c
+                in_handler = False
+                while cur is not None and cur is not sub.node:
+                    cur = pm.get(id(cur))
+                    if isinstance(cur, ast.ExceptHandler):
+                        in_handler = True
+                if not in_handler:
+                    errs.append(c)
+            err_nodes = {cfg.stmt_node_containing(c).id: c for c in errs if cfg.stmt_node_containing(c) is not None}
+            for mcall in muts:
+                n += 1
+                src = cfg.stmt_node_containing(mcall)
+                if src is None:
+                    continue
+                seen = {src.id}
+                work = [j for j, lab in src.succ if lab != 'exc']
+                hit = None
+                while work and hit is None:
+                    i = work.pop()
+                    if i in seen:
+                        continue
+                    seen.add(i)
+                    if i in err_nodes:
+                        hit = err_nodes[i]
+                        break
+                    work += [j for j, lab in cfg.nodes[i].succ if lab != 'exc']
+                inst = '%s: %s' % (short(sub.qualname), norm(mcall)[:50])
+                if hit is None:
+                    run.ok(inst, 'no explicit error answer after it')
+                else:
+                    run.violation(
+                        sub.qualname,
+                        'an error answer is reachable after %s' % norm(mcall)[:60],
+                        sub.loc(mcall),
+                        'the callback installs a route and can then answer error (%s at %s): with several routes on one line ("route A ... ; '
+                        'route B ...") the first ones are in the Adj-RIB-Out of the selected neighbors when a later one is refused, and the '
+                        'command is answered error' % (norm(hit)[:50], sub.loc(hit)),
+                    )
+    if n < 10:
+        run.cannot('only %d RIB mutations found in the command callbacks' % n)
+
+
+# ---------------------------------------------------------------------------------------------- R9
+def _defaulted_selectors(fn: ast.AST, command_names: set[str]) -> list[ast.Assign]:
+    """`v = <const> if <test on the command words> else <const>` with two different constants"""
+    derived = set(command_names)
+    changed = True
+    assigns = [n for n in ast.walk(fn) if isinstance(n, ast.Assign) and len(n.targets) == 1 and isinstance(n.targets[0], ast.Name)]
+    while changed:
+        changed = False
+        for a in assigns:
+            if a.targets[0].id not in derived and {x.id for x in ast.walk(a.value) if isinstance(x, ast.Name)} & derived:
+                derived.add(a.targets[0].id)
+                changed = True
+    out = []
+    for a in assigns:
+        v = a.value
+        if isinstance(v, ast.IfExp) and isinstance(v.body, ast.Constant) and isinstance(v.orelse, ast.Constant) and isinstance(v.body.value, str) and isinstance(v.orelse.value, str) and v.body.value != v.orelse.value:
+            if {x.id for x in ast.walk(v.test) if isinstance(x, ast.Name)} & derived:
+                out.append(a)
+    return out
+
+
+def _r9_no_default_action(model: Model, run: Run, cnt: Counter) -> None:
+    # positive control: the detector sees the shape it is looking for
+    ctl = ast.parse("def h(self, reactor, service, peers, command, use_json):\n    words = command.split()\n    direction = 'in' if 'in' in words else 'out'\n")
+    if len(_defaulted_selectors(ctl, {'command'})) != 1:
+        run.cannot('positive control of the defaulted-selector detector failed')
+    n = 0
+    for qn, fi in sorted(cnt.handlers.items()):
+        n += 1
+        args = [a.arg for a in fi.node.args.args]
+        cmd = {args[4]} if len(args) > 4 else set()
+        bad = _defaulted_selectors(fi.node, cmd)
+        if not bad:
+            run.ok('%s: no action chosen by default' % short(qn))
+            continue
+        for a in bad:
+            run.violation(
+                qn,
+                'the action is chosen with a fall-back: %s' % norm(a)[:70],
+                fi.loc(a),
+                'whatever the command says that is not %r is taken for %r: a mistyped or missing word runs the other action (for `rib clear` '
+                'that is the withdrawal of the whole Adj-RIB-Out of every selected neighbor) and the command is answered done' % (a.value.body.value, a.value.orelse.value),  # type: ignore[attr-defined]
+            )
+    if n < 30:
+        run.cannot('only %d command handlers found' % n)
